@@ -3,6 +3,7 @@ package main
 // Contract expression evaluation: Expr → Term in an environment.
 
 import (
+	"sort"
 	"os"
 	"fmt"
 	"go/token"
@@ -486,6 +487,23 @@ func (e *Env) call(x *Expr) Val {
 			e.g.declareFun(e.v, fname, argS, SInt)
 		}
 		return intVal(App(fname, SInt, argT...))
+	case "unmodified":
+		// no tracked memory differs from the entry state (every heap term is the
+		// entry heap): used for "the failing path changes nothing"
+		if e.v == nil || e.old == nil {
+			specErr("unmodified() needs a function context")
+		}
+		var cs []*Term
+		var names []string
+		for h := range e.v.heapSorts {
+			names = append(names, h)
+		}
+		sort.Strings(names)
+		for _, h := range names {
+			srt := e.v.heapSorts[h]
+			cs = append(cs, Eq(e.v.heap(e.st, h, srt), e.v.heap(e.v.entry, h, srt)))
+		}
+		return boolVal(And(cs...))
 	case "sameslice":
 		a := e.eval(x.Args[0])
 		b := e.eval(x.Args[1])
